@@ -66,6 +66,7 @@ namespace
             void*       where = slot(hi);
             auto&       w  = world();
             long        c0 = w.up_calls, f0 = w.up_fails;
+            static_size_request() = static_cast<std::size_t>(x.num("ssz", 16384));
             std::string r  = classify([&] { s = make_subject(x, where, src); });
             if (r == "ok" && !s)
                 r = "unknown_subject";
@@ -74,6 +75,10 @@ namespace
             e.s("srck", x.str("src", "-")).s("bd", x.str("bd", "-")).b("hi", hi);
             e.b("mem", x.num("member") != 0).i("N", x.num("N", 0)).b("acached", x.num("cached", 1) != 0);
             e.i("ups", w.up_calls - c0).i("upf", w.up_fails - f0);
+            {
+                bool st_src = x.str("src", "-") == "static" && x.str("fam") != "static";
+                e.u("ssz", st_src ? (x.num("ssz", 16384) == 2048 ? 2048u : 16384u) : 0u).u("sbs", st_src ? static_cast<std::size_t>(x.num("bs", 0)) : 0u);
+            }
             if (s)
             {
                 s->o = o;
@@ -396,7 +401,7 @@ namespace
             char*       p   = world().take(sz, 1, gap);
             int         blk = world().add_block(p, sz, 1, 999, true, gap);
             world().blocks[static_cast<std::size_t>(blk)].guarded = false;
-            Ev("ua").i("s", 999).i("b", blk).u("sz", sz).u("al", 1).u("mis", 0).u("gap", gap).b("st", true);
+            Ev("ua").i("s", 999).i("b", blk).u("sz", sz).u("al", 1).u("mis", 0).u("gap", gap).b("st", true).b("out", false);
             int id = ++next_id;
             pat_fill(p, sz, id);
             sib_live.push_back(Handle{id, p, false, 1, sz, 1, sz, -1});
